@@ -387,6 +387,16 @@ func (w *World) doRawEntry() {
 	if ver > 1 {
 		he.Refs = append([]cid.Cid{}, refs...)
 	}
+	// an entry written by hand (or by another implementation) may leave an empty list absent: nil
+	// encodes as null, which must read back and re-encode as such
+	if len(he.Next) == 0 && picks[6]%2 == 0 {
+		he.Next = nil
+		r.Probe("hand-built-entry-nil-list")
+	}
+	if len(he.Refs) == 0 && picks[7]%2 == 0 {
+		he.Refs = nil
+		r.Probe("hand-built-entry-nil-list")
+	}
 	switch idMode {
 	case 1:
 		he.Identity = n.W.ID.Filtered()
